@@ -3,6 +3,7 @@ CONSTANTS
   Handles = {"h1", "h2", "h3"}
   ProcOf <- TraceProcSep
   Writers = {"w1", "w2"}
+  Foreign = {"f1"}
   MaxCommits = 1000000
   MaxOps = 1000000
 VIEW tview
